@@ -3345,6 +3345,86 @@ func (h *hmapType) checkCtor() {
 			}
 			return true
 		})
+		if len(makes) == 0 {
+			// a constructor that builds the collection itself (it does not hand on what another
+			// constructor of the type returns) and installs no bucket table leaves `len(table)` zero
+			delegates := false
+			ast.Inspect(fi.Decl.Body, func(n ast.Node) bool {
+				if call, ok := n.(*ast.CallExpr); ok {
+					if fn := calleeFunc(info, call); fn != nil && fn != fi.Obj {
+						if rs := fn.Type().(*types.Signature).Results(); rs.Len() == 1 {
+							if n := namedOf(rs.At(0).Type()); n != nil && n.Obj() == h.t.Obj() {
+								delegates = true
+							}
+						}
+					}
+				}
+				return true
+			})
+			builds := false
+			ast.Inspect(fi.Decl.Body, func(n ast.Node) bool {
+				switch v := n.(type) {
+				case *ast.CompositeLit:
+					if n := namedOf(info.TypeOf(v)); n != nil && n.Obj() == h.t.Obj() {
+						builds = true
+					}
+				case *ast.CallExpr:
+					if id, ok := v.Fun.(*ast.Ident); ok && id.Name == "new" && len(v.Args) == 1 {
+						if n := namedOf(info.TypeOf(v.Args[0])); n != nil && n.Obj() == h.t.Obj() {
+							builds = true
+						}
+					}
+				}
+				return true
+			})
+			if builds && !delegates {
+				// allocating the table on demand is fine as long as every operation that divides by its
+				// length has made sure of it first (a nil/empty test, or a same-receiver call before it)
+				unguarded := ""
+				for _, mf := range h.p.MethodsOf(h.t) {
+					if mf.Decl.Body == nil || unguarded != "" {
+						continue
+					}
+					ast.Inspect(mf.Decl.Body, func(n ast.Node) bool {
+						be, ok := n.(*ast.BinaryExpr)
+						if !ok || be.Op != token.REM || !strings.Contains(types.ExprString(be.Y), "len(") {
+							return true
+						}
+						guarded := false
+						ast.Inspect(mf.Decl.Body, func(m ast.Node) bool {
+							if m == nil || m.Pos() >= be.Pos() {
+								return m == nil || m.Pos() < be.Pos()
+							}
+							switch v := m.(type) {
+							case *ast.IfStmt:
+								c := stripSpaces(types.ExprString(v.Cond))
+								if strings.Contains(c, "==nil") || strings.Contains(c, "count==0") || strings.Contains(c, "count<=0") || strings.Contains(c, "len(") {
+									guarded = true
+								}
+							case *ast.CallExpr:
+								if sel, ok := v.Fun.(*ast.SelectorExpr); ok {
+									if id, ok := sel.X.(*ast.Ident); ok && id.Name == recvName(mf) && sel.Sel.Name != "hash" {
+										if _, isM := mf.Pkg.TypesInfo.Uses[sel.Sel].(*types.Func); isM {
+											guarded = true
+										}
+									}
+								}
+							}
+							return true
+						})
+						if !guarded {
+							unguarded = mf.Obj.Name() + " (" + h.p.Pos(be.Pos()) + ")"
+						}
+						return true
+					})
+				}
+				if unguarded != "" {
+					h.r.Viol(h.pre+".ctor", h.name+" constructor "+fi.Obj.Name(), h.p.Pos(fi.Decl.Pos()), "the constructor installs no bucket table and "+unguarded+" takes the hash modulo len(table) without having made sure of a table first: it divides by zero on a collection nothing was put into")
+				} else {
+					h.r.OK(h.pre+".ctor", h.name+" constructor "+fi.Obj.Name(), h.p.Pos(fi.Decl.Pos()), "table allocated on demand; every operation that divides by its length makes sure of it first")
+				}
+			}
+		}
 		for _, mk := range makes {
 			c := h.name + " constructor " + fi.Obj.Name()
 			pos := h.p.Pos(fi.Decl.Pos())
